@@ -1,5 +1,6 @@
-(* Model of the undo recorder (lib/ext2fs/undo_io.c, repaired code: the undo
-   grid is fs-relative) and of e2undo's replay (misc/e2undo.c).
+(* Model of the undo recorder (lib/ext2fs/undo_io.c, repaired code) and of
+   e2undo's replay (misc/e2undo.c).  The undo grid is device-relative; the bytes
+   saved for undo block c are the T bytes starting (off mod T) into it.
    Parameters: B = channel block size, T = undo block size (tdb_data_size),
    off = filesystem offset inside the device.  The device is a byte function
    in device coordinates; accesses stay inside the original length (short
@@ -26,7 +27,9 @@ Section Undo.
   (* one undo-grid cell: the body of the while loop of undo_write_tdb *)
   Definition save_cell (s : ust) (c : N) : ust :=
     if memN c (u_written s) then s else
-    let bb := (c * T) / B in                         (* backing_blk_num *)
+    (* offset = block_num * tdb_data_size + (data->offset % tdb_data_size);
+       backing_blk_num = (offset - data->offset) / channel->block_size *)
+    let bb := (c * T + off mod T - off) / B in
     let data := rd_bytes (u_dsk s) (bb * B + off) (N.to_nat T) in
     let extend :=
         match rev (u_keys s) with
@@ -55,9 +58,12 @@ Section Undo.
 
   (* undo_write_tdb(block, size in bytes) *)
   Definition save (s : ust) (block size : N) : ust :=
-    let offset := block * B in
+    let offset := block * B + off in                 (* device offset *)
     let c0 := offset / T in
     let c1 := (offset + size - 1) / T in
+    (* a write that begins in the leading (off mod T) bytes of an undo block is
+       covered by the record of the previous undo block (repaired code) *)
+    let c0 := if (0 <? c0) && (offset mod T <? off mod T) then c0 - 1 else c0 in
     save_cells s c0 (N.to_nat (c1 + 1 - c0)).
 
   Definition real_write (s : ust) (fsoff : N) (data : bytes) : ust :=
